@@ -1,22 +1,9 @@
 (* C03: obligations over the generated tables, the witnesses of the three findings, and the
    non-vacuity examples of the implications proved in NameRefProofs / RenameProofs. *)
-From KV Require Import Res.BuildRefs Res.FsFacts Res.CsvFacts Res.NameRefProofs Res.RenameProofs.
+From KV Require Import Res.BuildRefs Res.FsFacts Res.CsvFacts Res.NameRefProofs Res.RenameProofs Res.RewriteProofs.
 From KV Require Import Gen.NameRefRules Gen.FieldSpecs.
 
 (* ================= obligations over the generated rule table ================= *)
-
-(* the path of a rule cannot reach the fields a resource is identified by *)
-Definition identity_safe (segs : list string) : bool :=
-  match segs with
-  | [] => false
-  | s1 :: rest =>
-      if String.eqb s1 "metadata" then
-        match rest with
-        | [] => false
-        | s2 :: _ => negb (String.eqb s2 "name") && negb (String.eqb s2 "namespace")
-        end
-      else negb (String.eqb s1 "kind") && negb (String.eqb s1 "apiVersion")
-  end.
 
 Definition rule_fs_ok (f : fieldspec) : bool :=
   let segs := path_splitter (fs_path f) in
@@ -50,6 +37,26 @@ Proof.
   apply andb_true_iff in H as [_ H]. rewrite forallb_forall in H. specialize (H f Hf).
   unfold rule_fs_ok in H. apply andb_true_iff in H as [H _].
   unfold rule_path_plain. apply Forall_forall. rewrite forallb_forall in H. exact H.
+Qed.
+
+Lemma gen_rule_ok rules b f :
+  effective_rules gen_gvk_order_first gen_gvk_order_last gen_nameref_raw = Ok rules ->
+  In b rules -> In f (nb_referrers b) -> rule_ok f.
+Proof.
+  intros He Hb Hf. split; [eapply gen_rule_path_plain; eauto|].
+  pose proof gen_nameref_table_wf as H. unfold nameref_table_wf in H.
+  rewrite He in H. apply andb_true_iff in H as [_ H].
+  rewrite forallb_forall in H. specialize (H b Hb).
+  apply andb_true_iff in H as [_ H]. rewrite forallb_forall in H. specialize (H f Hf).
+  unfold rule_fs_ok in H. now apply andb_true_iff in H as [_ H].
+Qed.
+
+(* FixBackReferences with the generated table never changes what a resource is called *)
+Lemma gen_transform_identity cs nonstr rules m m' :
+  effective_rules gen_gvk_order_first gen_gvk_order_last gen_nameref_raw = Ok rules ->
+  nameref_transform cs nonstr rules m = Ok m' -> Forall2 same_identity m m'.
+Proof.
+  intros He. apply nameref_transform_identity. intros b f Hb Hf. eapply gen_rule_ok; eauto.
 Qed.
 
 Lemma gen_namespace_table_ok : forallb ns_spec_ok gen_namespace_fs = true.
@@ -443,3 +450,80 @@ Proof.
         rewrite Hg, Hv. first [exact Hsel | rewrite Hkd; exact Hsel]. }
       rewrite E. reflexivity.
 Qed.
+
+(* ================= the whole transformer, at one address ================= *)
+
+Definition no_empty_prev (C : list cand) : bool := forallb (fun c => negb (prev_name_matches "" c)) C.
+
+Lemma no_empty_prev_spec C : no_empty_prev C = true -> forall c, In c C -> prev_name_matches "" c = false.
+Proof.
+  unfold no_empty_prev. rewrite forallb_forall. intros H c Hc. specialize (H c Hc).
+  now apply negb_true_iff in H.
+Qed.
+
+Section GenWhole.
+  Variable cs : string -> string -> bool.
+  Variable nonstr : string -> bool.
+  Variables (rules : list nbr) (m m' : list resource) (C : list cand).
+  Hypothesis Hrules : effective_rules gen_gvk_order_first gen_gvk_order_last gen_nameref_raw = Ok rules.
+  Hypothesis HC : mapM (view cs) m = Ok C.
+  Hypothesis Hne : no_empty_prev C = true.
+  Hypothesis Hrun : nameref_transform cs nonstr rules m = Ok m'.
+  Variables (i : nat) (r r' : resource) (a : list astep) (t : tag) (s : style) (v : string).
+  Hypothesis Hr : nth_error m i = Some r.
+  Hypothesis Hr' : nth_error m' i = Some r'.
+  Hypothesis Hns : no_ns_key a.
+  Hypothesis Hg : get_addr a (r_node r) = Some (Scalar t s v).
+
+  Lemma gen_whole_chain :
+    exists t' s' v', get_addr a (r_node r') = Some (Scalar t' s' v') /\ chain C v v'.
+  Proof.
+    eapply nameref_transform_at; eauto using no_empty_prev_spec.
+    intros b f Hb Hf. eapply gen_rule_ok; eauto.
+  Qed.
+
+  Lemma gen_whole_external :
+    (forall c, In c C -> prev_name_matches v c = false) ->
+    exists t' s', get_addr a (r_node r') = Some (Scalar t' s' v).
+  Proof.
+    intros Hno. destruct gen_whole_chain as (t' & s' & v' & Hg' & Hc).
+    rewrite (chain_external C v v' Hno Hc) in Hg'. eauto.
+  Qed.
+
+  Lemma gen_whole_closed new :
+    (forall c, In c C -> prev_name_matches v c = true -> c_name c = new) ->
+    (forall c, In c C -> prev_name_matches new c = true -> c_name c = new) ->
+    exists t' s' v', get_addr a (r_node r') = Some (Scalar t' s' v') /\ (v' = v \/ v' = new).
+  Proof.
+    intros H1 H2. destruct gen_whole_chain as (t' & s' & v' & Hg' & Hc).
+    exists t', s', v'. split; [assumption|]. eapply chain_closed; eauto.
+  Qed.
+End GenWhole.
+
+(* non-vacuity: w2_state meets the hypotheses of the whole-transformer theorems *)
+Example whole_nonvacuous :
+  mapM (view no_cs) w2_state = Ok w2_cands /\ no_empty_prev w2_cands = true /\
+  nameref_transform no_cs no_nonstr gen_rules w2_state = Ok w2_after /\
+  no_ns_key w2_addr /\
+  get_addr w2_addr (r_node (nth 2 w2_state (fresh (sc "")))) = Some (Scalar TStr SPlain "app").
+Proof.
+  split; [vm_compute; reflexivity|]. split; [vm_compute; reflexivity|].
+  split; [vm_compute; reflexivity|]. split; [|vm_compute; reflexivity].
+  unfold no_ns_key, w2_addr. repeat constructor; discriminate.
+Qed.
+
+(* a closed pair: ConfigMap cm renamed to p-cm, nothing else was ever called cm or p-cm *)
+Definition ex_closed_state : list resource := [
+  mkRes (doc "v1" "ConfigMap" "p-cm" []) (Some "cm") (Some "default") (Some "ConfigMap") (Some "p-") None false;
+  mkRes (doc "v1" "Pod" "p-pod" [("spec", Map [("volumes", Seq [Map [("configMap", Map [("name", sc "cm")])]])])])
+        (Some "pod") (Some "default") (Some "Pod") (Some "p-") None false ].
+Definition ex_closed_cands : list cand := unres (mapM (view no_cs) ex_closed_state).
+
+Example closed_nonvacuous :
+  mapM (view no_cs) ex_closed_state = Ok ex_closed_cands /\ no_empty_prev ex_closed_cands = true /\
+  forallb (fun c => negb (prev_name_matches "cm" c) || String.eqb (c_name c) "p-cm") ex_closed_cands = true /\
+  forallb (fun c => negb (prev_name_matches "p-cm" c) || String.eqb (c_name c) "p-cm") ex_closed_cands = true /\
+  option_map (fun r => get_addr [AKey "spec"; AKey "volumes"; AIdx 0; AKey "configMap"; AKey "name"] (r_node r))
+             (nth_error (unres (nameref_transform no_cs no_nonstr gen_rules ex_closed_state)) 1)
+  = Some (Some (Scalar TNone SPlain "p-cm")).
+Proof. repeat split; vm_compute; reflexivity. Qed.
